@@ -61,9 +61,8 @@ theorem pubOrigins_limitBy (vis : Vis) (k : Kind) (v : View) (hv : v.PubOrigins)
 theorem pubOrigins_forwardedMap (sw : Switches) (k : Kind) (r : FwdRule) (v : View) (hv : v.PubOrigins) :
     (forwardedMap sw k r v).PubOrigins := by
   unfold forwardedMap
-  have h1 : (match r.pfx with
-      | some p => View.prefixed sw.prefixedKeysBug v p
-      | none => v).PubOrigins := by
+  have h1 : (prefixBy sw.prefixedKeysBug r.pfx v).PubOrigins := by
+    unfold prefixBy
     split
     · exact pubOrigins_prefixed _ _ _ hv
     · exact hv
@@ -218,9 +217,8 @@ theorem good_limitBy (vis : Vis) (k : Kind) (v : View) (hv : v.Good) : (limitBy 
 theorem good_forwardedMap (sw : Switches) (hb : sw.prefixedKeysBug = false) (k : Kind) (r : FwdRule)
     (v : View) (hv : v.Good) : (forwardedMap sw k r v).Good := by
   unfold forwardedMap
-  have h1 : (match r.pfx with
-      | some p => View.prefixed sw.prefixedKeysBug v p
-      | none => v).Good := by
+  have h1 : (prefixBy sw.prefixedKeysBug r.pfx v).Good := by
+    unfold prefixBy
     split
     · rw [hb]; exact good_prefixed _ _ hv
     · exact hv
@@ -299,17 +297,13 @@ theorem limitBy_get (vis : Vis) (k : Kind) (v1 : View) (h1g : v1.Good) (n : Iden
 theorem forwardedMap_get_spec (sw : Switches) (hl : sw.ignoreLists = false) (hb : sw.prefixedKeysBug = false)
     (k : Kind) (r : FwdRule) (v : View) (hv : v.Good) (n : Ident) :
     (forwardedMap sw k r v).get n = fwdSpecGet r k v.get n := by
-  have h1g : (match r.pfx with
-      | some p => View.prefixed sw.prefixedKeysBug v p
-      | none => v).Good := by
+  have h1g : (prefixBy sw.prefixedKeysBug r.pfx v).Good := by
+    unfold prefixBy
     split
     · rw [hb]; exact good_prefixed _ _ hv
     · exact hv
-  have h1 : (match r.pfx with
-      | some p => View.prefixed sw.prefixedKeysBug v p
-      | none => v).get n = (match r.pfx with
-      | some p => if p.isPrefixOf n then v.get (n.drop p.length) else none
-      | none => v.get n) := by
+  have h1 : (prefixBy sw.prefixedKeysBug r.pfx v).get n = stripPfx r.pfx v.get n := by
+    unfold prefixBy stripPfx
     split <;> simp [View.prefixed]
   unfold forwardedMap fwdSpecGet FwdRule.allows
   simp only [hl, Bool.false_eq_true, if_false]
@@ -326,10 +320,10 @@ theorem findSome?_filter_none {α β : Type} (f : α → Option β) (p : α → 
     intro h
     have ih' := ih (fun x hx => h x (by simp [hx]))
     by_cases hp : p a = true
-    · simp [List.filter_cons, hp, List.findSome?_cons, ih']
+    · simp [hp, List.findSome?_cons, ih']
     · simp only [Bool.not_eq_true] at hp
       have := h a (by simp) hp
-      simp [List.filter_cons, hp, List.findSome?_cons, ih', this]
+      simp [hp, ih', this]
 
 theorem memberMap_get (loc : View) (others : List View) (ho : ∀ v ∈ others, v.Good) (n : Ident) :
     (memberMap loc others).get n = ((View.pub loc).get n).or (others.reverse.findSome? (fun v => v.get n)) := by
@@ -375,5 +369,248 @@ theorem scopeView_get_spec (sw : Switches) (hl : sw.ignoreLists = false) (hb : s
         obtain ⟨f, _, rfl⟩ := hv
         exact good_forwardedMap sw hb _ _ _ (good_scopeView sw hb k rest f.target)
     · exact ih id n
+
+
+/-! ### every origin a view hands out satisfies a predicate that holds of all declared members -/
+
+def View.AllOrigins (P : Origin → Prop) (v : View) : Prop := ∀ n o, v.get n = some o → P o
+
+theorem allOrigins_base (P : Origin → Prop) (id : Nat) (own : List Ident) (h : ∀ n ∈ own, P ⟨id, n⟩) :
+    (View.base id own).AllOrigins P := by
+  intro n o hg
+  simp only [View.base] at hg
+  split at hg
+  · rename_i hc; cases hg; exact h n (by simpa using hc)
+  · cases hg
+
+theorem allOrigins_pub (P : Origin → Prop) (v : View) (hv : v.AllOrigins P) : (View.pub v).AllOrigins P := by
+  intro n o hg
+  simp only [View.pub] at hg
+  split at hg
+  · cases hg
+  · exact hv _ _ hg
+
+theorem allOrigins_limitBy (P : Origin → Prop) (vis : Vis) (k : Kind) (v : View) (hv : v.AllOrigins P) :
+    (limitBy vis k v).AllOrigins P := by
+  intro n o hg
+  unfold limitBy at hg
+  split at hg
+  · simp only [View.safelist] at hg; split at hg
+    · exact hv _ _ hg
+    · cases hg
+  · split at hg
+    · exact hv _ _ hg
+    · simp only [View.blocklist] at hg; split at hg
+      · exact hv _ _ hg
+      · cases hg
+  · exact hv _ _ hg
+
+theorem allOrigins_forwardedMap (P : Origin → Prop) (sw : Switches) (k : Kind) (r : FwdRule) (v : View)
+    (hv : v.AllOrigins P) : (forwardedMap sw k r v).AllOrigins P := by
+  have h1 : (prefixBy sw.prefixedKeysBug r.pfx v).AllOrigins P := by
+    intro n o hg
+    unfold prefixBy at hg
+    split at hg
+    · simp only [View.prefixed] at hg; split at hg
+      · exact hv _ _ hg
+      · cases hg
+    · exact hv _ _ hg
+  unfold forwardedMap
+  simp only
+  split
+  · exact h1
+  · exact allOrigins_limitBy P _ _ _ h1
+
+theorem allOrigins_memberMap (P : Origin → Prop) (loc : View) (others : List View) (hl : loc.AllOrigins P)
+    (ho : ∀ v ∈ others, v.AllOrigins P) : (memberMap loc others).AllOrigins P := by
+  unfold memberMap
+  simp only
+  split
+  · exact allOrigins_pub P _ hl
+  · intro n o hg
+    simp only [View.merged] at hg
+    obtain ⟨v, hm, hgv⟩ := List.exists_of_findSome?_eq_some hg
+    simp only [List.mem_reverse, List.mem_append, List.mem_filter, List.mem_singleton] at hm
+    rcases hm with ⟨hm, _⟩ | hm
+    · exact ho v hm _ _ hgv
+    · subst hm; exact allOrigins_pub P _ hl _ _ hgv
+
+theorem modAt_lt : ∀ (ms : List Mod) (i : Nat) (m : Mod), modAt ms i = some m → i < ms.length := by
+  intro ms
+  induction ms with
+  | nil => intro i m h; simp [modAt] at h
+  | cons a rest ih =>
+    intro i m h
+    unfold modAt at h
+    split at h
+    · simp_all
+    · have := ih i m h; simp; omega
+
+theorem allOrigins_scopeView (P : Origin → Prop) (sw : Switches) (k : Kind) :
+    ∀ (ms : List Mod) (id : Nat), (∀ i m, modAt ms i = some m → ∀ n ∈ m.names k, P ⟨i, n⟩) →
+      (scopeView sw k ms id).AllOrigins P := by
+  intro ms
+  induction ms with
+  | nil => intro id _ n o h; simp [scopeView, View.empty] at h
+  | cons m rest ih =>
+    intro id hP
+    have hrest : ∀ i m', modAt rest i = some m' → ∀ n ∈ m'.names k, P ⟨i, n⟩ := by
+      intro i m' hm
+      have hlt := modAt_lt rest i m' hm
+      apply hP i m'
+      unfold modAt
+      rw [if_neg (by omega)]
+      exact hm
+    unfold scopeView
+    split
+    · rename_i hid
+      apply allOrigins_memberMap
+      · apply allOrigins_base
+        exact hP id m (by unfold modAt; rw [if_pos hid])
+      · intro v hv
+        simp only [List.mem_map] at hv
+        obtain ⟨f, _, rfl⟩ := hv
+        exact allOrigins_forwardedMap P _ _ _ _ (ih f.target hrest)
+    · exact ih id hrest
+
+theorem readVar_eq_modAt : ∀ (ms : List Mod) (i : Nat) (n : Ident),
+    readVar ms i n = (modAt ms i).bind (fun m => m.vars.lookup n) := by
+  intro ms
+  induction ms with
+  | nil => intros; rfl
+  | cons a rest ih =>
+    intro i n
+    unfold readVar modAt
+    split
+    · rfl
+    · exact ih i n
+
+theorem lookup_isSome_of_mem (l : List (Ident × Val)) (n : Ident) (h : n ∈ l.map (·.1)) : (l.lookup n).isSome = true := by
+  induction l with
+  | nil => simp at h
+  | cons e l ih =>
+    obtain ⟨k, v⟩ := e
+    simp only [List.map_cons, List.mem_cons] at h
+    simp only [List.lookup]
+    by_cases hk : n = k
+    · subst hk; simp
+    · have : (n == k) = false := by simpa using hk
+      rw [this]
+      exact ih (by rcases h with h | h; exact absurd h hk; exact h)
+
+/-- every variable origin handed out by a module's scope names a variable that exists -/
+theorem scopeView_var_exists (sw : Switches) (ms : List Mod) (id : Nat) (n : Ident) (o : Origin)
+    (h : (scopeView sw .var ms id).get n = some o) : (readVar ms o.owner o.name).isSome = true := by
+  refine allOrigins_scopeView (fun o => (readVar ms o.owner o.name).isSome = true) sw .var ms id ?_ n o h
+  intro i m hm x hx
+  simp only [readVar_eq_modAt, hm, Option.bind_some]
+  exact lookup_isSome_of_mem _ _ (by simpa [Mod.names] using hx)
+
+/-! ### assignment keeps every view and updates the one shared variable -/
+
+theorem setAssoc_keys (l : List (Ident × Val)) (n : Ident) (v : Val) (h : (l.lookup n).isSome = true) :
+    (setAssoc l n v).map (·.1) = l.map (·.1) := by
+  have hany : l.any (fun e => e.1 == n) = true := by
+    induction l with
+    | nil => simp at h
+    | cons e l ih =>
+      obtain ⟨k, x⟩ := e
+      simp only [List.lookup] at h
+      by_cases hk : n = k
+      · subst hk; simp
+      · have hb : (n == k) = false := by simpa using hk
+        rw [hb] at h
+        simp [ih h]
+  unfold setAssoc
+  rw [if_pos hany]
+  clear hany h
+  induction l with
+  | nil => rfl
+  | cons e l ih =>
+    simp only [List.map_cons, ih]
+    split <;> simp_all
+
+theorem lookup_setAssoc (l : List (Ident × Val)) (n : Ident) (v : Val) (h : (l.lookup n).isSome = true) :
+    (setAssoc l n v).lookup n = some v := by
+  have hany : l.any (fun e => e.1 == n) = true := by
+    induction l with
+    | nil => simp at h
+    | cons e l ih =>
+      obtain ⟨k, x⟩ := e
+      simp only [List.lookup] at h
+      by_cases hk : n = k
+      · subst hk; simp
+      · have hb : (n == k) = false := by simpa using hk
+        rw [hb] at h
+        simp [ih h]
+  unfold setAssoc
+  rw [if_pos hany]
+  clear hany
+  induction l with
+  | nil => simp at h
+  | cons e l ih =>
+    obtain ⟨k, x⟩ := e
+    simp only [List.lookup] at h
+    by_cases hk : n = k
+    · subst hk; simp [List.lookup]
+    · have hb : (n == k) = false := by simpa using hk
+      have hb2 : (k == n) = false := by simpa using Ne.symm hk
+      rw [hb] at h
+      simp only [List.map_cons, hb2, Bool.false_eq_true, if_false, List.lookup, hb]
+      exact ih h
+
+theorem readVar_setVar : ∀ (ms : List Mod) (id : Nat) (n : Ident) (v : Val),
+    (readVar ms id n).isSome = true → readVar (setVar ms id n v) id n = some v := by
+  intro ms
+  induction ms with
+  | nil => intro id n v h; simp [readVar] at h
+  | cons m rest ih =>
+    intro id n v h
+    unfold readVar at h
+    unfold setVar
+    split
+    · rename_i hid
+      rw [if_pos hid] at h
+      unfold readVar
+      rw [if_pos hid]
+      exact lookup_setAssoc _ _ _ h
+    · rename_i hid
+      rw [if_neg hid] at h
+      unfold readVar
+      rw [setVar_length', if_neg hid]
+      exact ih id n v h
+where
+  setVar_length' {rest : List Mod} {id : Nat} {n : Ident} {v : Val} : (setVar rest id n v).length = rest.length := by
+    induction rest with
+    | nil => rfl
+    | cons a r ih => unfold setVar; split <;> simp [ih]
+
+theorem scopeView_setVar (sw : Switches) (k : Kind) : ∀ (ms : List Mod) (id : Nat) (n : Ident) (v : Val) (i : Nat),
+    (readVar ms id n).isSome = true → scopeView sw k (setVar ms id n v) i = scopeView sw k ms i := by
+  intro ms
+  induction ms with
+  | nil => intros; rfl
+  | cons m rest ih =>
+    intro id n v i h
+    unfold readVar at h
+    unfold setVar
+    split
+    · rename_i hid
+      rw [if_pos hid] at h
+      unfold scopeView
+      have hn : ({ m with vars := setAssoc m.vars n v } : Mod).names k = m.names k := by
+        cases k <;> simp [Mod.names, setAssoc_keys _ _ _ h]
+      simp only [hn]
+    · rename_i hid
+      rw [if_neg hid] at h
+      unfold scopeView
+      have hl : (setVar rest id n v).length = rest.length := readVar_setVar.setVar_length'
+      rw [hl]
+      split
+      · congr 1
+        apply List.map_congr_left
+        intro f _
+        rw [ih id n v f.target h]
+      · exact ih id n v i h
 
 end Grass.Module
